@@ -858,6 +858,23 @@ class Terminal:
                 self.mbx_in_off, "HHBB", data=self.mbx_in_sz - 6)
         return MBXType(type & 0xf), data[:dlen]
 
+    async def coe_recv(self):
+        """receive the next CoE message, skipping unrelated mail
+
+        a terminal may queue other mail, like EoE frames or CoE
+        emergency messages, ahead of the response we are waiting for."""
+        while True:
+            type, data = await self.mbx_recv()
+            if type is not MBXType.COE:
+                logging.warning(f"expected CoE package, got {type}, "
+                                f"for terminal {self.name}")
+            elif (len(data) >= 2 and unpack_from("<H", data)[0] >> 12
+                    == CoECmd.EMERGENCY.value):
+                logging.warning(f"terminal {self.name} sent emergency "
+                                f"message {data[2:].hex()}")
+            else:
+                return data
+
     async def coe_request(self, coecmd, odcmd, *args, **kwargs):
         async with self.mbx_lock:
             await self.mbx_send(MBXType.COE, "HBxH", coecmd.value << 12,
@@ -867,12 +884,7 @@ class Terminal:
             offset = 8  # skip header in first packet
 
             while fragments:
-                type = None
-                while type is not MBXType.COE:
-                    type, data = await self.mbx_recv()
-                    if type is not MBXType.COE:
-                        logging.warning(f"expected CoE package, got {type}, "
-                                        f"for terminal {self.name}")
+                data = await self.coe_recv()
                 coecmd, rodcmd, fragments = unpack("<HBxH", data[:6])
                 if rodcmd & 0x7f != odcmd.value + 1:
                     raise EtherCatError(f"expected {odcmd.value}, got {rodcmd}, "
@@ -893,12 +905,7 @@ class Terminal:
                     ODCmd.UP_REQ_CA.value if subindex is None
                     else ODCmd.UP_REQ.value,
                     index, 1 if subindex is None else subindex)
-            type = None
-            while type is not MBXType.COE:
-                type, data = await self.mbx_recv()
-                if type is not MBXType.COE:
-                    logging.warning(f"expected CoE package, got {type}, "
-                                    f"for terminal {self.name}")
+            data = await self.coe_recv()
             coecmd, sdocmd, idx, subidx, size = unpack("<HBHBI", data[:10])
             if coecmd >> 12 != CoECmd.SDORES.value:
                 if subindex is None and coecmd >> 12 == CoECmd.SDOREQ.value:
@@ -919,9 +926,7 @@ class Terminal:
                         MBXType.COE, "HBHB4x", CoECmd.SDOREQ.value << 12,
                         ODCmd.SEG_UP_REQ.value + toggle, index,
                         1 if subindex is None else subindex)
-                type, data = await self.mbx_recv()
-                if type is not MBXType.COE:
-                    raise EtherCatError(f"expected CoE, got {type}")
+                data = await self.coe_recv()
                 coecmd, sdocmd = unpack("<HB", data[:3])
                 if coecmd >> 12 != CoECmd.SDORES.value:
                     raise EtherCatError(
@@ -957,10 +962,7 @@ class Terminal:
                         MBXType.COE, "HBHB4s", CoECmd.SDOREQ.value << 12,
                         ODCmd.DOWN_EXP.value | (((4 - len(data)) << 2) & 0xc),
                         index, subindex, data)
-                type, data = await self.mbx_recv()
-            if type is not MBXType.COE:
-                raise EtherCatError(f"expected CoE, got {type}, {data} "
-                                    f"{odata} {index:x}:{subindex:x}")
+                data = await self.coe_recv()
             coecmd, sdocmd, idx, subidx = unpack("<HBHB", data[:6])
             if idx != index or subindex != subidx:
                 raise EtherCatError(f"requested index {index:x}:{subindex:x}, "
@@ -977,9 +979,7 @@ class Terminal:
                         else ODCmd.DOWN_INIT.value,
                         index, 1 if subindex is None else subindex,
                         len(data), data=data[:stop])
-                type, response = await self.mbx_recv()
-                if type is not MBXType.COE:
-                    raise EtherCatError(f"expected CoE, got {type}")
+                response = await self.coe_recv()
                 coecmd, sdocmd, idx, subidx = unpack("<HBHB", response[:6])
                 if coecmd >> 12 != CoECmd.SDORES.value:
                     raise EtherCatError(f"expected CoE SDORES, got {coecmd>>12:x}")
@@ -1000,9 +1000,7 @@ class Terminal:
                     await self.mbx_send(
                             MBXType.COE, "HB", CoECmd.SDOREQ.value << 12,
                             cmd, data=d)
-                    type, response = await self.mbx_recv()
-                    if type is not MBXType.COE:
-                        raise EtherCatError(f"expected CoE, got {type}")
+                    response = await self.coe_recv()
                     coecmd, sdocmd = unpack("<HB", response[:3])
                     if coecmd >> 12 != CoECmd.SDORES.value:
                         raise EtherCatError(f"expected CoE SDORES")
